@@ -90,6 +90,10 @@ class SymtableCodeGen(AbstractCodeGen):
 
     @staticmethod
     def transOpers(symbol):
+        if not hasattr(symbol, 'replace'):
+            # the grammar takes an OID value wherever an object is named
+            raise error.PySmiSemanticError('%r given where a symbol name is expected' % (symbol,))
+
         if iskeyword(symbol):
             symbol = 'pysmi_' + symbol
 
